@@ -66,17 +66,17 @@ def writeOp (isFile : Bool) (flags tree ser path opn sched : String) : Out :=
         let serS := if obj.isNone then "-" else "ok"
         let fileS := if !isFile then "" else
           if opn ≠ "ok" then " file=-" else if obj.isNone then " file=absent" else " file=1"
-        let mline := s!"{ret} {toHex (delivered o)} err={errS} ## calls={showCalls o.calls} msg={toHex o.lastErr} ser={serS} fds={o.fdsLeft}{fileS}"
+        let mline := s!"{ret} {toHex (delivered o)} err={errS} fds={o.fdsLeft} leak=0 ## calls={showCalls o.calls} msg={toHex o.lastErr} ser={serS}{fileS}"
         -- specification: independent of the loop
         let sline :=
           if obj.isNone ∨ ser = "NULL" then "*"
-          else if isFile ∧ opn ≠ "ok" then "-1 - err=1"
+          else if isFile ∧ opn ≠ "ok" then "-1 - err=1 fds=0 leak=0"
           else match ofHex ser with
             | none => "*"
             | some s =>
               let (sr, sd) := specWrite (cstr s) (sc'.map fun | .n k => some k | .err _ => none)
               match sr with
-              | some v => s!"{v} {toHex sd} err={if v == 0 then "0" else "1"}"
+              | some v => s!"{v} {toHex sd} err={if v == 0 then "0" else "1"} fds=0 leak=0"
               | none => "*"
         let cov := (if obj.isNone then ["w-null-object"] else if ser = "NULL" then ["w-serializer-null"] else [])
           ++ (if isFile then [if opn = "ok" then "w-file-open-ok" else "w-file-open-fails"] else [])
@@ -128,19 +128,19 @@ def readOp (isFile : Bool) (depthS path opn dataS sched : String) : Out :=
       else
         let mline := match o.parsed with
           | some (d, b) =>
-            s!"PARSED err=- same=1 ## reads={showReads o.reads} parse={d}:{toHex b} msg=P fds={o.fdsLeft}"
+            s!"PARSED err=- same=1 fds={o.fdsLeft} leak={o.live.length} ## reads={showReads o.reads} parse={d}:{toHex b} msg=P"
           | none =>
             let errS := if o.lastErr.isEmpty then "0" else "1"
-            s!"NULL err={errS} same=- ## reads={showReads o.reads} parse=- msg={toHex o.lastErr} fds={o.fdsLeft}"
+            s!"NULL err={errS} same=- fds={o.fdsLeft} leak={o.live.length} ## reads={showReads o.reads} parse=- msg={toHex o.lastErr}"
         -- specification: independent of print buffer and loop
         let depthEff : Int := match inD with | some d => if d = -1 then Generated.tokenerDefaultDepth else d | none => Generated.tokenerDefaultDepth
         let sline :=
-          if isFile ∧ opn ≠ "ok" then "NULL err=1 same=-"
-          else if depthEff < 1 then "NULL err=1 same=-"
+          if isFile ∧ opn ≠ "ok" then "NULL err=1 same=- fds=0 leak=0"
+          else if depthEff < 1 then "NULL err=1 same=- fds=0 leak=0"
           else match specRead (serve Generated.fileBufSize data sizes) [] with
             | .pending => "*"
-            | .ioError => "NULL err=1 same=-"
-            | .parse _ => "PARSED err=- same=1"
+            | .ioError => "NULL err=1 same=- fds=0 leak=0"
+            | .parse _ => "PARSED err=- same=1 fds=0 leak=0"
         let cov := (if isFile then [if opn = "ok" then "r-file-open-ok" else "r-file-open-fails"] else [])
           ++ rCov (if isFile then none else inD) data sc o
         { model := mline, spec := sline, cov := cov }
